@@ -305,3 +305,35 @@ PROPS['C19'] = dict(
            dict(name='gfpart_discarded_bound', harness='h_gfpart', defs=['OUTER=1', 'INNER=1', 'REGIME=5'], witnesses=['computed', 'bound_checked'],
                 validate=[{'C': 1, 'CX': 1, 'eps': '1/100', 'win0': '1/200', 'wout0': '1/300'}])],
 )
+
+_P2 = lambda n: R(1 << n)
+PROPS['C02'] = dict(
+    claim='TwoParticleGFPart on the real code, decomposed into solver-decided obligations: (B) after compute() the stored term lists are '
+          'exactly the documented multi-terms (C2, C4, R12/N12, R23/N23, poles, tolerance rule) of the stored operator quadruples, for '
+          'symbolic matrix elements, energies, weights and beta; (D) each kind of term evaluates to its documented form at Matsubara '
+          'numbers including the resonant branches, with the frequency triple (w1,w2,-w3) permuted by each of the six permutations; '
+          'chaseIndices finds exactly the common inner indices for all sparsity patterns; (C02c, in the C08/C19 units) TwoParticleGF::prepare '
+          'builds exactly one part per permutation and block 4-cycle.',
+    bounds={Q: 'blocks (1,1,1,1) fully symbolic (all 6 permutations); shapes (2,2,1,1), (1,2,2,1), (1,1,2,2), (2,1,1,2) with all sparsity '
+               'patterns and concrete generic numbers; one term of each kind at 5 Matsubara triples x 6 permutations', T: 'same'},
+    assumptions=['double read as exact real', 'the multi-term of the header documentation IS the triple Fourier integral (Hafermann et al. 2009; '
+                 'uses w_j = w_i exp(-beta(E_j-E_i)) and exp(i beta w) = -1: mathematical step, not derivable without transcendental reasoning)',
+                 'a part value is the sum of its terms (composition of B and D)'],
+    outside=['merging of terms whose poles agree within 1e-8 across quadruples (weighted pole average)', 'the frequency-table path (TwoParticleGF::compute) '
+             'and its MPI reduction (C06)', 'complex build'],
+    units=[dict(name='2pgfpart_1111', harness='h_2pgfpart', defs=[], split={'perm': R(6), 'O1': [0, 1], 'O2': [0, 1]},
+                witnesses=['computed', 'done', 'no_quadruple'], validate=[{'perm': 3, 'O1': 1, 'O2': 1, 'O3': 1, 'CX4': 1}]),
+           dict(name='2pgfpart_2211_patterns', harness='h_2pgfpart', defs=['DIM1=2', 'DIM2=2'], concrete=True,
+                split={'O1': _P2(4), 'O2': _P2(2), 'O3': [1], 'CX4': _P2(2), 'perm': [0, 5]}, witnesses=['computed', 'done', 'two_quadruples']),
+           dict(name='2pgfpart_1221_patterns', harness='h_2pgfpart', defs=['DIM2=2', 'DIM3=2'], concrete=True,
+                split={'O1': _P2(2), 'O2': _P2(4), 'O3': _P2(2), 'CX4': [1], 'perm': [1]}, witnesses=['computed', 'done', 'two_quadruples']),
+           dict(name='2pgfpart_1122_patterns', harness='h_2pgfpart', defs=['DIM3=2', 'DIM4=2'], concrete=True,
+                split={'O1': [1], 'O2': _P2(2), 'O3': _P2(4), 'CX4': _P2(2), 'perm': [2]}, witnesses=['computed', 'done', 'two_quadruples']),
+           dict(name='2pgfpart_2112_patterns', harness='h_2pgfpart', defs=['DIM1=2', 'DIM4=2'], concrete=True,
+                split={'O1': _P2(2), 'O2': [1], 'O3': _P2(2), 'CX4': _P2(4), 'perm': [3]}, witnesses=['computed', 'done', 'two_quadruples']),
+           dict(name='2pgfpart_2222_patterns', harness='h_2pgfpart', defs=['DIM1=2', 'DIM2=2', 'DIM3=2', 'DIM4=2'], concrete=True, tiers=[T],
+                split={'O1': _P2(4), 'O2': _P2(4), 'O3': [6, 9, 15, 7, 11], 'CX4': [6, 9, 15, 13, 14], 'perm': [4]}, witnesses=['computed', 'done', 'two_quadruples'])] +
+          [dict(name='2pgfterm_%d' % t, harness='h_2pgfterm', defs=['TERM=%d' % t], split={'perm': R(6), 'freq': R(5)},
+                witnesses=['done'] + (['resonant_branch', 'non_resonant_branch'] if t >= 2 else []),
+                validate=[{'perm': 2, 'freq': 1, 'P1': '1/3', 'P2': '-1/3', 'P3': '1/5'}]) for t in range(4)],
+)
